@@ -123,9 +123,17 @@ func c18Verdict(calls []run.Call, loose bool, multiFault bool) string {
 	if oid.Panic != "" || oid.Failed || !jv.StrictEqual(oid.Val, o1.Val) {
 		return fmt.Sprintf("the result of e1 is not accepted unchanged as input: %s -> %s", o1, oid)
 	}
+	snap := run.SnapshotFull(o1.Raw)
 	o2 := run.Search(calls[1].Expr, o1.Raw)
 	if o2.Panic != "" {
 		return "panic: " + o2.Panic
+	}
+	if after := run.SnapshotFull(o1.Raw); after != snap {
+		return fmt.Sprintf("querying the result of e1 with e2 changed that result:\n before %s\n after  %s", snap, after)
+	}
+	// ... and querying it again gives the same answer
+	if o2b := run.Search(calls[1].Expr, o1.Raw); run.SameOutcomeMF(o2, o2b, loose, multiFault) != "" {
+		return fmt.Sprintf("querying the result of e1 twice with e2 gives different answers: %s then %s", o2, o2b)
 	}
 	if !o2.Failed {
 		if msg := plainJSON(o2); msg != "" {
